@@ -119,8 +119,21 @@ fn file_bytes(g: &Graph, i: usize) -> Option<Vec<u8>> {
     match g.status[i] {
         Status::Missing | Status::IsDirectory => None,
         Status::Healthy | Status::BodyFault | Status::UsesUnimported | Status::ExportsMissing | Status::MalformedForm => Some(lib_text(g, i, None).into_bytes()),
-        Status::SecondInFile => Some(format!("(define-library (g decoy{}) (export d) (begin (define d 0)))\n{}", i, lib_text(g, i, None)).into_bytes()),
-        Status::WrongName => Some(lib_text(g, i, Some("(g other)")).into_bytes()),
+        // the decoy before the wanted library: another name, or (odd i) the one-identifier name g/n<i>, whose file path is the same
+        Status::SecondInFile => Some(
+            format!("(define-library ({}) (export d) (begin (define d 0)))\n{}", if i % 2 == 0 { format!("g decoy{}", i) } else { format!("g/n{}", i) }, lib_text(g, i, None)).into_bytes(),
+        ),
+        Status::WrongName => {
+            // the name in the file differs from the requested one in its last element, in its first element only, by an
+            // extra element, or by a missing first element
+            let wrong = match i % 4 {
+                0 => "(g other)".to_string(),
+                1 => format!("(h n{})", i),
+                2 => format!("(g n{} extra)", i),
+                _ => format!("(n{})", i),
+            };
+            Some(lib_text(g, i, Some(&wrong)).into_bytes())
+        }
         Status::Unbalanced => {
             let t = lib_text(g, i, None);
             Some(t.trim_end().trim_end_matches(')').as_bytes().to_vec())
